@@ -11,7 +11,7 @@ Import ListNotations.
       sym_ok: either transpose() builds a Transpose, or it returns the operator itself (isa(SelfAdjoint), read off the
       implementation) and the represented matrix is indeed symmetric *)
 Theorem C20_getitem_den : forall (R : Type) (RR : Ring R) (CR : CRing R) fl (e : op (R:=R)) q,
-  wf e = true -> sym_ok fl e -> listed q = true -> same_len q -> (f_list_dotA fl = false \/ is_list_pair q = false) ->
+  wf e = true -> sym_ok fl e -> listed q = true -> (f_list_zip fl = false \/ same_len q) -> (f_list_dotA fl = false \/ is_list_pair q = false) ->
   (forall er, getitem fl e q <> Err er) ->
   exists s, spec_index (den e) (fst (shape e)) (snd (shape e)) q = Some s /\ res_matches e (getitem fl e q) s.
 Proof. intros R RR CR. exact getitem_den. Qed.
@@ -41,7 +41,7 @@ Print Assumptions C20_slices_acts.
       numpy accepts on the represented matrix is accepted *)
 Theorem C20_getitem_total : forall (R : Type) (RR : Ring R) (CR : CRing R) fl (e : op (R:=R)) q s,
   wf e = true -> sym_ok fl e -> listed q = true ->
-  f_list_dotA fl = false -> f_arr_cpu fl = false -> f_list_empty_err fl = false ->
+  f_list_dotA fl = false -> f_arr_cpu fl = false -> f_list_empty_err fl = false -> (f_list_zip fl = false \/ same_len q) ->
   (f_row_len_cols fl = false \/ fst (shape e) = snd (shape e)) ->
   spec_index (den e) (fst (shape e)) (snd (shape e)) q = Some s -> forall er, getitem fl e q <> Err er.
 Proof. intros R RR CR. exact getitem_total. Qed.
@@ -96,6 +96,11 @@ Theorem C20_getitem_empty_lists_refuted :
                       /\ getitem pinned e q = Err EValue.
 Proof. exact getitem_empty_lists_refuted. Qed.
 Print Assumptions C20_getitem_empty_lists_refuted.
+Theorem C20_getitem_list_zip_refuted :
+  exists (e : zop) q, wf e = true /\ listed q = true /\ getitem zipfl e q = Vec [z 1]
+     /\ spec_index (den e) (fst (shape e)) (snd (shape e)) q = Some (SVec [z 1; z 4]) /\ getitem repaired e q = Vec [z 1; z 4].
+Proof. exact getitem_list_zip_refuted. Qed.
+Print Assumptions C20_getitem_list_zip_refuted.
 Theorem C20_getitem_T_self_refuted :
   exists (e : zop), wf e = true /\ getitem tself e (One (IInt 0)) = Vec [z 1; z 3]
      /\ spec_index (den e) (fst (shape e)) (snd (shape e)) (One (IInt 0)) = Some (SVec [z 1; z 2])
